@@ -188,6 +188,11 @@ private:
       transportConfig.clientTls.enabled = true;
       transportConfig.clientTls.defaultMode = TlsMode::Client;
       transportConfig.clientTls.verifyPeer = _tlsConfig.verifyPeer;
+      // The configured trust anchor and client certificate must reach the
+      // transport; otherwise verification silently uses the system store only.
+      transportConfig.clientTls.caFile = _tlsConfig.caFile;
+      transportConfig.clientTls.certFile = _tlsConfig.clientCertFile;
+      transportConfig.clientTls.keyFile = _tlsConfig.clientKeyFile;
 
       _transport = Transport::tcp(transportConfig); // HTTP client is TCP (S-3: shared_ptr factory)
       auto startResult = _transport->start();
